@@ -139,6 +139,7 @@ def run(rep):
                 rep.finding_or_violation('C04:parser-refuses:%s:%s' % (tname, text), '%s: the parser refuses %s=%r with %s although the text is valid for %s' % (cls, an, text, o, tname),
                                          {'class': cls, 'attribute': an, 'type': tname, 'text': text, 'raised': o})
         rep.coverage['parser_numeric_spellings'] = n_pt
+        rep.coverage['cross_offers_between_same_named_attributes_of_different_types'] = sum(len(rec.get('parser_texts', [])) for rec in recs if rec.get('cls') == '<cross offers>')
         # prefix: the schema's prefixed attribute names must be what is serialised
         pre = sorted({(k, a[0]) for k, v in g['ctypes'].items() for a in v['attrs'] if ':' in a[0] and a[0].startswith('xml:')})
         for k, name in pre:
